@@ -67,20 +67,12 @@ theorem buildErrL_none (bo : BuildOracle) : ∀ (vs : List V), buildErrL bo vs =
 end
 
 theorem known_nil (c : Case) (h : known c = []) :
-    (equalParams c = true → k9 c.eqOracle c.tree c.tree2 = false) ∧
-    (equalParams c = true → (c.purge = false ∨ hasRe c.tree = false)) := by
-  unfold known knownK9 knownK18a at h
-  constructor
-  · intro he
-    cases hk : k9 c.eqOracle c.tree c.tree2
-    · rfl
-    · simp [he, hk] at h
-  · intro he
-    cases hp : c.purge
-    · left; rfl
-    · cases hr : hasRe c.tree
-      · right; rfl
-      · simp [he, hp, hr] at h
+    equalParams c = true → k9 c.eqOracle c.tree c.tree2 = false := by
+  unfold known knownK9 at h
+  intro he
+  cases hk : k9 c.eqOracle c.tree c.tree2
+  · rfl
+  · simp [he, hk] at h
 
 theorem model_meets_spec (c : Case) (hwf : wf c = true) (hk : known c = []) : spec c (model c) = true := by
   unfold spec
@@ -104,15 +96,13 @@ theorem model_meets_spec (c : Case) (hwf : wf c = true) (hk : known c = []) : sp
       cases hsame : sameUpTo c.eqOracle c.tree c.tree2
       · simp [model, hb, hb2, hout, hret]
       · have hep : equalParams c = true := by simp [equalParams, hv, hv2, hsame]
-        obtain ⟨hk9, hpr⟩ := known_nil c hk
-        have hk9 := hk9 hep
-        have hpr : c.eqOracle.purge = false ∨ hasRe c.tree = false := hpr hep
+        have hk9 := known_nil c hk hep
         have hcoh : coherent c.eqOracle c.tree c.tree2 = true := by simpa [hv, hv2] using hcoh
-        have heq := veq_norm c.eqOracle c.tree c.tree2 hs1 hs2 hsame hk9 hcoh hpr
+        have heq := veq_norm c.eqOracle c.tree c.tree2 hs1 hs2 hsame hk9 hcoh
         cases hph : (paramsHashable c.eqOracle c.tree && paramsHashable c.eqOracle c.tree2)
         · simp [model, hb, hb2, hout, hret, heq]
         · simp only [Bool.and_eq_true] at hph
-          obtain ⟨a1, a2, a3⟩ := vhash_norm c.eqOracle c.tree c.tree2 hs1 hs2 hsame hk9 hcoh hpr hph.1 hph.2
+          obtain ⟨a1, a2, a3⟩ := vhash_norm c.eqOracle c.tree c.tree2 hs1 hs2 hsame hk9 hcoh hph.1 hph.2
           simp [model, hb, hb2, hout, hret, heq, a1, a2, a3]
 
 
